@@ -298,7 +298,7 @@ class kLeastAbsErrorsCycles(walkmodel.AbstractWalkModelDiGraph):
             if (u, v) in self.edges_to_ignore:
                 continue
 
-            f_u_v = data[self.flow_attr]
+            f_u_v = float(data[self.flow_attr])
 
             # We encode that edge_vars[(u,v,i)] * self.path_weights_vars[(i)] = self.pi_vars[(u,v,i)],
             # assuming self.w_max is a bound for self.path_weights_vars[(i)]
